@@ -322,7 +322,12 @@ async fn receive_task<T>(
             }
         };
 
-        let transport = endpoint.transports().set_used(&tp_key);
+        let (transport, notifier) = endpoint.transports().set_used(&tp_key);
+
+        if let Some(notifier) = notifier {
+            // all handles have been dropped in the meantime, go on with the new reference count
+            state = ReceiveTaskState::InUse(notifier);
+        }
 
         let message = match item {
             Some(Ok(item)) => item,
